@@ -2195,12 +2195,13 @@ impl Kanata {
                 // The next tick sends the difference between the keys that are down at the OS
                 // output and the keys the layout states hold. If they differ - e.g. a key
                 // pressed by a macro is still down after the macro was cancelled on release -
-                // that tick still has output to produce, so this is not an idle state.
-                let layout = self.layout.b();
+                // that tick still has output to produce, so this is not an idle state. The
+                // order counts too: keys are released in the order of this list, so a tick that
+                // only reorders it still changes what a later release of several keys looks like.
                 self.prev_keys
                     .iter()
-                    .all(|k| layout.keycodes().any(|kc| kc == *k))
-                    && layout.keycodes().all(|kc| self.prev_keys.contains(&kc))
+                    .copied()
+                    .eq(self.layout.b().keycodes())
             }
             && !self.layout.b().states.iter().any(|s| {
                 matches!(s, State::SeqCustomPending(_) | State::SeqCustomActive(_))
